@@ -4,6 +4,14 @@ sys.path.insert(0, os.path.dirname(os.path.dirname(os.path.abspath(__file__))))
 ALL = ["C%02d" % i for i in range(1, 21)]
 TECH = "deterministic simulation with fault injection: real library + real concurrent.futures code on simulated threading primitives, baton-passing real threads under a seeded scheduler (uniform / sticky / PCT / bounded pre-emption, line-level pre-emption via sys.monitoring), virtual clock, scripted delegate and user-code faults, history oracles, replay files"
 CHECKS = {
+ "C01": {
+  "text": "Seeded search over stacks (depth 1-6, all layer types and orders) x outcome scripts x submitter threads x schedules; every non-cancelled future is compared with a sequential reference evaluation (value equality, exception identity, invocation count, argument integrity). Evidence of absence over the explored runs, not proof.",
+  "note": "Reference model harness/model.py written from the documented semantics; futures touched by cancel() are exempt (C06); paths where an error_fn turns a library-made TypeError text into a value are not predicted (skipped).",
+  "design": "10 (C01), 4"},
+ "C03": {
+  "text": "Seeded search over three workload families (sequential timing against an exact model bound in virtual time; concurrent clients with cancels and cancellation behind the library's back; f_* combinators with inputs finished by other threads). Oracles: nothing pending once all underlying work is terminal; completion no later than configured delays imply (detects lost wake-ups that real-time tests convert into slow passes).",
+  "note": "Virtual clock ticks on every read (slack = 20 ms + reads x tick); executors not shut down; promptness oracle only in stall-free runs.",
+  "design": "10 (C03), 3.2"},
  "C04": {
   "text": "Seeded search over schedules x client programs x executor stacks; the scheduler itself decides deadlock (wait-for cycle among lock waiters, lock held forever by a thread that is blocked forever, busy-wait livelock holding a lock), so every explored execution is decided exactly; unexplored interleavings are not covered.",
   "note": "Simulated Lock/RLock/Condition/Event/Semaphore/SimpleQueue/Thread mirror CPython 3.12 semantics; line-granular pre-emption under the GIL; nested code only submits; shutdown from one thread.",
